@@ -30,3 +30,21 @@ pub proof fn lemma_two_pools_min<C: ContentAddrStore>(s: UnsealedState<C>)
     vstd::set_lib::lemma_len_subset(two, d);
     assert(two.len() == 2);
 }
+pub open spec fn pool_live(p: PoolState) -> bool { p.lefts > 0 && p.rights > 0 }
+
+// ---- C16: built-in pools
+pub open spec fn is_initial_pool(p: PoolState) -> bool { p.lefts == 1_000_000_000 && p.rights == 1_000_000_000 && p.liqs == 1_000_000_000 && p.price_accum == 0 }
+/// every pool in the tree is either live (reserves and liquidity non-zero) or completely empty
+pub open spec fn pools_ok(m: Map<PoolKey, PoolState>) -> bool {
+    forall|k: PoolKey| #[trigger] m.contains_key(k) ==> (pool_live(m[k]) && m[k].liqs > 0) || (m[k].lefts == 0 && m[k].rights == 0 && m[k].liqs == 0)
+}
+pub open spec fn builtins_live<C: ContentAddrStore>(s: UnsealedState<C>) -> bool {
+    &&& s.pools@.contains_key(pk_mel_sym()) && pool_live(s.pools@[pk_mel_sym()])
+    &&& s.pools@.contains_key(pk_mel_erg()) && pool_live(s.pools@[pk_mel_erg()])
+    &&& (spec_tip(s.network, s.height, 180000) ==> s.pools@.contains_key(pk_erg_sym()) && pool_live(s.pools@[pk_erg_sym()]))
+}
+/// built-in pools that already exist are live (their initial liquidity belongs to nobody, so they can never be emptied)
+pub open spec fn builtins_if_present<C: ContentAddrStore>(s: UnsealedState<C>) -> bool {
+    (s.pools@.contains_key(pk_mel_sym()) ==> pool_live(s.pools@[pk_mel_sym()])) && (s.pools@.contains_key(pk_mel_erg()) ==> pool_live(s.pools@[pk_mel_erg()]))
+    && (s.pools@.contains_key(pk_erg_sym()) ==> pool_live(s.pools@[pk_erg_sym()]))
+}
